@@ -2,6 +2,7 @@ package parser
 
 import (
 	"bufio"
+	"bytes"
 	"io"
 	"strings"
 
@@ -68,6 +69,11 @@ func (r *ContentReader) readNextLine() (err error) {
 	r.buf, err = r.src.ReadBytes('\n')
 	if len(r.buf) == 0 {
 		return err
+	}
+	// Normalise Windows line endings, a comment on the first line of a file using
+	// CRLF is otherwise attached to the YAML document rather than the first rule.
+	if bytes.HasSuffix(r.buf, []byte("\r\n")) {
+		r.buf = append(r.buf[:len(r.buf)-2], '\n')
 	}
 
 	r.lineno++
